@@ -51,3 +51,10 @@ _add(PropertySpec(
     technique="contract-based deductive verification of the union-find core (ghost representative map); triples / supertrees / to_list / binary(): bounded stand-in",
     not_decided=["tree_to_triples, tree_from_triples, all_trees_from_triples, supertree, DisjointSet.to_list / binary / group count = number of classes: bounded stand-in only (ete3-bound code, set.pop order, cardinalities)"],
 ))
+
+_add(PropertySpec(
+    "C19", files=["toposort"], targets=[], level="exploration",
+    standins=["toposort:all-orderings-vs-permutation-filter"],
+    technique="bounded stand-in (runtime check against permutation filtering); no obligations are discharged for this property",
+    not_decided=["toposort / toposort_all / _toposort_all_bt: the inductive invariant needs in-degree = number of unprocessed predecessors (a cardinality), which the SMT back ends do not support; not proved"],
+))
